@@ -1,14 +1,263 @@
-import CentrifugeVerif.Model.MapHub
+import CentrifugeVerif.Proofs.MapExpiry
 /-!
 # C24 — map key expiry removes each expired key exactly once
--/
-namespace CentrifugeVerif.MapHub
 
-/-- one phase-2 region emits at most one broadcast. -/
+"A map key whose TTL elapses without refresh is removed from state, and exactly one removal is appended to
+the stream and broadcast; a key refreshed (by publish or keep-alive) before its deadline is not removed, and a
+key removed or republished concurrently with expiry is neither removed twice nor lost."
+
+The statements are over `Model/MapExpiry.lean`: the sweeper's phase 1 (`MapHub.phase1`, one hub-lock region)
+and every phase-2 region (`MapHub.phase2`, one per collected event) are separate atomic labels that interleave
+with `Publish` / keep-alive / `Remove` / `Clear` and clock ticks.
+
+* E1 `expiry_exactly_once`, E2 `refreshed_not_removed`, E3 `removed_not_removed_again`, `no_double_removal`
+  describe one phase-2 region on an **arbitrary** hub (whatever ran between phase 1 and this region).
+* `phase1_collects_only_elapsed_unrefreshed` describes phase 1 on an arbitrary hub.
+* E4 `step_preserves_expInv` / `run_preserves_expInv`: over **all** interleavings no key with a deadline is
+  lost by the sweeper (its deadline is recorded and either still in the heap or in a pending event).
+* E5 `sequential_sweep_complete` / `phase1_never_stuck`: an uninterrupted sweep removes every elapsed key.
+-/
+namespace CentrifugeVerif.MapExpiry
+open CentrifugeVerif.MapHub
+
+/-! ### concrete instances used by the `example`s -/
+
+/-- channel 0: `MapModeRecoverable` (mode 2), `KeyTTL` 1000 ms, default stream size (100);
+channel 1: `MapModeEphemeral` (mode 1, no stream), `KeyTTL` 500 ms. -/
+def exCfg : Nat → RawCfg := fun ch => if ch = 0 then ⟨2, 1000, 0, false⟩ else ⟨1, 500, 0, false⟩
+
+/-- keep-alive: publish with `KeyModeIfNew` + `RefreshTTLOnSuppress`. -/
+def keepAlive : PubOpts := { mode := .ifNew, refresh := true }
+
+/-- key `[1]` of channel 0 published at 0, clock at 1000, phase 1 done: one event pending. -/
+def exExpired : Sys := (Sys.init.run exCfg [.pub 0 [1] {}, .tick 1000, .phase1]).getD Sys.init
+/-- … and a keep-alive lands between phase 1 and phase 2 (deadline now 2000). -/
+def exRefreshed : Sys := (exExpired.run exCfg [.pub 0 [1] keepAlive]).getD Sys.init
+/-- … or a `Remove` lands between phase 1 and phase 2. -/
+def exRemoved : Sys := (exExpired.run exCfg [.rm 0 [1] {}]).getD Sys.init
+/-- the event collected by phase 1. -/
+def exEv : ExpEvent := ⟨0, [1], 1000, 0, 100⟩
+
+example : exExpired.pending = [exEv] ∧ exRefreshed.pending = [exEv] ∧ exRemoved.pending = [exEv] := by decide
+
+/-! ### E1 — an elapsed, unrefreshed key is removed exactly once -/
+
+/-- **E1.** A phase-2 region that finds the entry still carrying the deadline phase 1 saw (the key was not
+refreshed) removes the key from the state and forgets its deadline, leaves every other key and channel alone,
+and emits exactly one broadcast: a removal of that key.  With a stream (`streamSize > 0`) exactly one entry —
+that publication, with offset `top + 1` — is appended (and the front trimmed to `streamSize`), and it is
+broadcast at position `(top + 1, epoch)`; without a stream the stream is unchanged. -/
+theorem expiry_exactly_once (h : Hub) (now1 now2 : Nat) (ev : ExpEvent) (c : Chan) (e : Entry)
+    (hc : aget h.chans ev.ch = some c) (he : aget c.state ev.key = some e)
+    (hd : e.expireAt = ev.expireAt) :
+    stateOf (phase2 h now1 now2 ev).1 ev.ch ev.key = none ∧
+    aget (phase2 h now1 now2 ev).1.keyExpires (ev.ch, ev.key) = none ∧
+    (∀ key, key ≠ ev.key → stateOf (phase2 h now1 now2 ev).1 ev.ch key = stateOf h ev.ch key) ∧
+    (∀ ch, ch ≠ ev.ch → aget (phase2 h now1 now2 ev).1.chans ch = aget h.chans ch) ∧
+    (phase2 h now1 now2 ev).2.length = 1 ∧
+    ∃ b, (phase2 h now1 now2 ev).2 = [b] ∧ b.ch = ev.ch ∧ b.pub.key = ev.key ∧ b.pub.removed = true ∧
+      b.pub.tag = ev.tag ∧ b.pub.time = now2 ∧ b.pos.epoch = c.stream.epoch ∧
+      (0 < ev.streamSize →
+        b.pub.offset = c.stream.top + 1 ∧ b.pos = ⟨c.stream.top + 1, c.stream.epoch⟩ ∧
+        streamOf (phase2 h now1 now2 ev).1 ev.ch = some
+          { top := c.stream.top + 1,
+            items := (c.stream.items ++ [b.pub]).drop ((c.stream.items ++ [b.pub]).length - ev.streamSize),
+            epoch := c.stream.epoch }) ∧
+      (ev.streamSize = 0 →
+        b.pub.offset = 0 ∧ b.pos = c.stream.pos ∧
+        streamOf (phase2 h now1 now2 ev).1 ev.ch = some c.stream) :=
+  phase2_expired_spec now1 now2 hc he hd
+
+/-- the hypotheses hold for the pending event of `exExpired` (stream-backed channel) … -/
+example : ∃ c e, aget exExpired.hub.chans exEv.ch = some c ∧ aget c.state exEv.key = some e ∧
+    e.expireAt = exEv.expireAt ∧ 0 < exEv.streamSize ∧ c.stream.top = 1 :=
+  ⟨⟨⟨1, [⟨[1], 0, 0, 0, 1, false, 0⟩], 1⟩, [([1], ⟨⟨[1], 0, 0, 0, 1, false, 0⟩, 0, 1000, 0, 0⟩)], false, []⟩,
+   ⟨⟨[1], 0, 0, 0, 1, false, 0⟩, 0, 1000, 0, 0⟩, by decide, by decide, by decide, by decide, by decide⟩
+/-- … and the region appends the removal at offset 2 and broadcasts it once. -/
+example : (phase2 exExpired.hub 1000 1003 exEv).2 = [⟨0, ⟨[1], 0, 0, 0, 2, true, 1003⟩, ⟨2, 1⟩, false, none⟩] ∧
+    streamOf (phase2 exExpired.hub 1000 1003 exEv).1 0 =
+      some ⟨2, [⟨[1], 0, 0, 0, 1, false, 0⟩, ⟨[1], 0, 0, 0, 2, true, 1003⟩], 1⟩ := by decide
+
+/-! ### E2 — a refreshed key is not removed -/
+
+/-- **E2 (phase 2).** If the entry's deadline differs from the one phase 1 saw (keep-alive or republish in
+between), the region emits nothing and leaves state and streams untouched; if the new deadline is later than
+phase 1's `now` it is queued again: recorded in `keyExpires`, pushed on the heap, and the sweeper's wake-up
+time is non-zero and not later than it. -/
+theorem refreshed_not_removed (h : Hub) (now1 now2 : Nat) (ev : ExpEvent) (c : Chan) (e : Entry)
+    (hc : aget h.chans ev.ch = some c) (he : aget c.state ev.key = some e)
+    (hd : e.expireAt ≠ ev.expireAt) :
+    (phase2 h now1 now2 ev).2 = [] ∧ (phase2 h now1 now2 ev).1.chans = h.chans ∧
+    (e.expireAt > now1 →
+      ((ev.ch, ev.key), e.expireAt) ∈ (phase2 h now1 now2 ev).1.queue ∧
+      aget (phase2 h now1 now2 ev).1.keyExpires (ev.ch, ev.key) = some e.expireAt ∧
+      (phase2 h now1 now2 ev).1.nextKeyCheck ≠ 0 ∧
+      (phase2 h now1 now2 ev).1.nextKeyCheck ≤ e.expireAt) := by
+  by_cases hn : now1 < e.expireAt
+  · rw [phase2_requeue hc he hd hn]
+    refine ⟨rfl, rfl, fun _ => ⟨by simp, aget_aset_same _ _ _, ?_, ?_⟩⟩
+    · show (if _ then _ else _) ≠ 0
+      split <;> omega
+    · show (if _ then _ else _) ≤ _
+      split <;> omega
+  · rw [phase2_stale hc he hd (by omega)]
+    exact ⟨rfl, rfl, fun h' => absurd h' hn⟩
+
+/-- the hypotheses hold after a keep-alive between phase 1 and phase 2 (deadline moved from 1000 to 2000)… -/
+example : ∃ c e, aget exRefreshed.hub.chans exEv.ch = some c ∧ aget c.state exEv.key = some e ∧
+    e.expireAt ≠ exEv.expireAt ∧ e.expireAt > exRefreshed.now1 :=
+  ⟨⟨⟨1, [⟨[1], 0, 0, 0, 1, false, 0⟩], 1⟩, [([1], ⟨⟨[1], 0, 0, 0, 1, false, 0⟩, 0, 2000, 0, 0⟩)], false, []⟩,
+   ⟨⟨[1], 0, 0, 0, 1, false, 0⟩, 0, 2000, 0, 0⟩, by decide, by decide, by decide, by decide⟩
+/-- … and the whole sweep then broadcasts nothing and keeps the key. -/
+example : ((exRefreshed.run exCfg [.phase2]).map (fun s => (s.log.length, (stateOf s.hub 0 [1]).isSome, s.pending)))
+    = some (1, true, []) := by decide
+
+/-- **E2 (phase 1).** Phase 1 does not touch the channels, and every event it collects is for a key whose
+entry carries exactly the collected deadline and that deadline has elapsed: a key whose deadline lies in the
+future, or that was refreshed to a different deadline, is never collected. -/
+theorem phase1_collects_only_elapsed_unrefreshed (cfg : Nat → RawCfg) (h h' : Hub) (now : Nat)
+    (evs : List ExpEvent) (hp : phase1 cfg h now = some (h', evs)) :
+    h'.chans = h.chans ∧
+    ∀ ev ∈ evs, ev.expireAt ≤ now ∧ ∃ e, stateOf h ev.ch ev.key = some e ∧ e.expireAt = ev.expireAt := by
+  unfold phase1 at hp
+  split at hp
+  · simp only [Option.some.injEq, Prod.mk.injEq] at hp
+    obtain ⟨rfl, rfl⟩ := hp
+    exact ⟨rfl, fun ev hev => by cases hev⟩
+  · split at hp
+    · cases hp
+    · rename_i h1 next evs1 hl
+      obtain ⟨h2, h3⟩ := phase1Loop_col cfg now _ _ _ _ _ _ hl
+      have h4 : ∀ ev ∈ evs1, ev.expireAt ≤ now ∧
+          ∃ e, stateOf h ev.ch ev.key = some e ∧ e.expireAt = ev.expireAt := by
+        intro ev hev
+        rcases h3 ev hev with h5 | h5
+        · cases h5
+        · exact h5
+      split at hp <;>
+      · simp only [Option.some.injEq, Prod.mk.injEq] at hp
+        obtain ⟨rfl, rfl⟩ := hp
+        exact ⟨h2, h4⟩
+
+/-- phase 1 at 1000 with key `[1]` (deadline 1000, elapsed) and key `[2]` (published at 500, deadline 1500):
+only `[1]` is collected. -/
+example : ((Sys.init.run exCfg [.pub 0 [1] {}, .tick 500, .pub 0 [2] {}, .tick 500, .phase1]).map (·.pending))
+    = some [exEv] := by decide
+
+/-! ### E3 — a key removed concurrently is not removed again -/
+
+/-- **E3.** If at phase-2 time the channel or the key is absent (removed concurrently, channel cleared, or
+already removed by an earlier event for the same key), the region does nothing at all. -/
+theorem removed_not_removed_again (h : Hub) (now1 now2 : Nat) (ev : ExpEvent)
+    (hn : stateOf h ev.ch ev.key = none) : phase2 h now1 now2 ev = (h, []) :=
+  phase2_noop hn
+
+/-- a `Remove` between phase 1 and phase 2: the key is absent when the pending event is processed, and the
+log holds the publication and the one removal by `Remove` only. -/
+example : stateOf exRemoved.hub exEv.ch exEv.key = none ∧
+    ((exRemoved.run exCfg [.phase2]).map (fun s => s.log.map (fun b => (b.pub.offset, b.pub.removed))))
+      = some [(1, false), (2, true)] := by decide
+
+/-- **Neither removed twice.** After a phase-2 region removed a key (hypotheses of E1), any further region
+for the same channel and key — whatever deadline and clock values it carries — does nothing, unless the key
+has been published again in between. -/
+theorem no_double_removal (h : Hub) (now1 now2 : Nat) (ev : ExpEvent) (c : Chan) (e : Entry)
+    (hc : aget h.chans ev.ch = some c) (he : aget c.state ev.key = some e)
+    (hd : e.expireAt = ev.expireAt) (ev' : ExpEvent) (hch : ev'.ch = ev.ch) (hkey : ev'.key = ev.key)
+    (now1' now2' : Nat) :
+    phase2 (phase2 h now1 now2 ev).1 now1' now2' ev' = ((phase2 h now1 now2 ev).1, []) := by
+  apply phase2_noop
+  rw [hch, hkey]
+  exact (phase2_expired_spec now1 now2 hc he hd).1
+
+/-- On **any** hub, for any event and clock values, one phase-2 region emits at most one broadcast. -/
 theorem phase2_at_most_one_broadcast (h : Hub) (now1 now2 : Nat) (ev : ExpEvent) :
     (phase2 h now1 now2 ev).2.length ≤ 1 := by
   unfold phase2
   repeat' split
   all_goals simp
 
-end CentrifugeVerif.MapHub
+/-! ### E4 — over all interleavings no deadline is lost -/
+
+/-- the invariant holds initially. -/
+theorem expInv_init : ExpInv Sys.init ∧ ExpAux Sys.init :=
+  (hinv_iff Sys.init).mp hinv_init
+
+/-- **E4.** Every label — publish (including keep-alive refresh), remove, clear, tick, phase 1 (including
+the heap-compaction branch) and every branch of phase 2 — preserves the invariant `ExpInv` (together with
+the two auxiliary facts `ExpAux` that make it inductive: recorded deadlines are positive and the empty key
+is never in a state). -/
+theorem step_preserves_expInv (cfg : Nat → RawCfg) (s : Sys) (l : Label) (s' : Sys)
+    (hi : ExpInv s ∧ ExpAux s) (hs : s.step cfg l = some s') : ExpInv s' ∧ ExpAux s' :=
+  (hinv_iff s').mp (step_hinv ((hinv_iff s).mpr hi) hs)
+
+/-- **E4.** In every state reachable by any interleaving of publish / keep-alive / remove / clear / tick
+with the sweeper's phase 1 and phase-2 regions, a key that carries a deadline has that deadline recorded,
+and a heap item with priority ≤ the deadline or a pending event for exactly that deadline exists; the
+sweeper's wake-up time is non-zero when the heap is non-empty and is a lower bound of the heap.  Hence the
+sweeper cannot lose a key: it wakes up no later than the deadline and finds the item. -/
+theorem run_preserves_expInv (cfg : Nat → RawCfg) (ls : List Label) (s : Sys)
+    (hr : Sys.init.run cfg ls = some s) : ExpInv s :=
+  ((hinv_iff s).mp (run_hinv ls Sys.init s hinv_init hr)).1
+
+/-- a run in which a keep-alive and a republish race with the two phases; the re-queue of phase 2 on top of
+the push by the refresh makes phase 1 collect duplicate events (two for `(1, [2])` at 1000, two for `(0, [1])`
+at 2000) — each key is nevertheless removed once. -/
+example : ((Sys.init.run exCfg
+      [.pub 0 [1] {}, .pub 1 [2] {}, .tick 500, .phase1, .pub 1 [2] keepAlive, .phase2, .tick 500, .phase1,
+       .pub 0 [1] {}, .phase2, .phase2, .phase2, .tick 1000, .phase1, .phase2, .phase2]).map
+      (fun s => (s.pending, s.log.map (fun b => (b.ch, b.pub.key, b.pub.removed)))))
+    = some ([], [(0, [1], false), (1, [2], false), (0, [1], false), (1, [2], true), (0, [1], true)]) := by
+  decide
+
+/-! ### E5 — an uninterrupted sweep removes every elapsed key -/
+
+/-- **E5.** Phase 1 never runs out of fuel: `3 * queue.length + 3` iterations suffice (every heap item is
+re-queued at most twice — once with the recorded deadline, once more with a deadline in the future). -/
+theorem phase1_never_stuck (cfg : Nat → RawCfg) (h : Hub) (now : Nat) : phase1 cfg h now ≠ none :=
+  phase1_ne_none cfg h now
+
+/-- **E5.** From a state satisfying the invariant in which no sweep is in progress, one uninterrupted
+`expireKeysIteration` at time `now` (`MapHub.sweep`: phase 1, then phase 2 for every event) terminates
+normally and leaves no key whose positive deadline is `≤ now`. -/
+theorem sequential_sweep_complete (cfg : Nat → RawCfg) (s : Sys) (now : Nat) (h' : Hub) (out : MOut)
+    (hi : ExpInv s) (ha : ExpAux s) (hp : s.pending = []) (hsw : sweep cfg s.hub now = (h', out)) :
+    out.res = .done ∧
+    ∀ ch c key e, aget h'.chans ch = some c → aget c.state key = some e →
+      ¬ (0 < e.expireAt ∧ e.expireAt ≤ now) := by
+  have hh : HInv s.hub [] := by rw [← hp]; exact (hinv_iff s).mpr ⟨hi, ha⟩
+  unfold sweep at hsw
+  split at hsw
+  · rename_i hn; exact absurd hn (phase1_ne_none cfg s.hub now)
+  · rename_i h1 evs hp1
+    simp only [Prod.mk.injEq] at hsw
+    obtain ⟨rfl, rfl⟩ := hsw
+    refine ⟨rfl, ?_⟩
+    intro ch c key e hc he
+    exact phase2All_complete now now now evs h1 (phase1_post hp1 hh).due ch key e
+      (stateOf_eq_some_iff.mpr ⟨c, hc, he⟩)
+
+/-- **E5 for reachable states.** After any interleaving that ends with no sweep in progress, one
+uninterrupted sweep at the current time leaves no key whose deadline has elapsed. -/
+theorem reachable_sweep_complete (cfg : Nat → RawCfg) (ls : List Label) (s : Sys)
+    (hr : Sys.init.run cfg ls = some s) (hp : s.pending = []) :
+    (sweep cfg s.hub s.now).2.res = .done ∧
+    ∀ ch c key e, aget (sweep cfg s.hub s.now).1.chans ch = some c → aget c.state key = some e →
+      ¬ (0 < e.expireAt ∧ e.expireAt ≤ s.now) := by
+  have hi := (hinv_iff s).mp (run_hinv ls Sys.init s hinv_init hr)
+  exact sequential_sweep_complete cfg s s.now _ _ hi.1 hi.2 hp rfl
+
+/-- keys `[1]` (deadline 1000) and `[2]` (deadline 1500) of channel 0 and `[3]` of channel 1 (deadline 1000,
+kept alive at 900 → 1400). -/
+def exThree : Sys := (Sys.init.run exCfg [.pub 0 [1] {}, .tick 500, .pub 0 [2] {}, .pub 1 [3] {}, .tick 400,
+  .pub 1 [3] keepAlive, .tick 600]).getD Sys.init
+
+/-- the sweep at 1500 removes all three, each with one broadcast. -/
+example : exThree.pending = [] ∧ exThree.now = 1500 ∧
+    (sweep exCfg exThree.hub 1500).2.res = .done ∧
+    (sweep exCfg exThree.hub 1500).2.bcs.map (fun b => (b.ch, b.pub.key, b.pub.removed, b.pub.offset))
+      = [(0, [1], true, 3), (1, [3], true, 0), (0, [2], true, 4)] ∧
+    (sweep exCfg exThree.hub 1500).1.chans.map (fun c => (c.1, c.2.state.length)) = [(0, 0), (1, 0)] := by
+  decide
+
+end CentrifugeVerif.MapExpiry
